@@ -207,7 +207,7 @@ pub fn gen(seed: u64, idx: u64, tier: Tier) -> Case {
 
 pub fn run(case: &Case, known: &BTreeSet<String>) -> Outcome {
     if case.mode == "stale-handle" {
-        return crate::stale::run(case, crate::stale::Judge { property: "C03", image: true, bystanders: false });
+        return crate::stale::run(case, crate::stale::Judge { property: "C03", image: true, bystanders: false, refusals: false });
     }
     runner::run_history(case, &flags(), known)
 }
